@@ -10,7 +10,7 @@
    All statements are about exact rational arithmetic. *)
 From Coq Require Import ZArith QArith Qabs Bool List Lia Lqa Permutation Setoid Morphisms.
 Import ListNotations.
-From PV Require Import Base.Num Base.Order Model.Indicators Model.Hypervolume.
+From PV Require Import Base.Num Base.Order Model.Indicators Model.Hypervolume Proofs.IndicatorsProofs.
 Open Scope Q_scope.
 
 (* ================= Part A ================= *)
@@ -934,3 +934,701 @@ Proof.
   exists v, a'. split; [exact R|]. split; [|split; assumption].
   rewrite Ev, hv_S. rewrite (firstn_length_le a Hl). ring.
 Qed.
+
+(* ---------- the calculate pipeline ---------- *)
+Lemma filterM_ok {A} (f : A -> res bool) (g : A -> bool) l :
+  (forall x, In x l -> f x = Ok (g x)) -> filterM f l = Ok (filter g l).
+Proof.
+  induction l as [|a r IH]; intro Hf; [reflexivity|].
+  simpl. rewrite (Hf a (or_introl eq_refl)). simpl. rewrite IH by (intros x Hx; apply Hf; now right).
+  simpl. reflexivity.
+Qed.
+
+Definition keepb (dirs : list bool) (v : list Q) : bool :=
+  forallb (fun b : bool => b) (zip2 not_worse_than_nadir dirs v).
+Definition goodv (dirs : list bool) (v : list Q) : list Q := zip2 goodness dirs v.
+
+Lemma keep_scan_ok : forall v pre ds, length ds = length v ->
+  keep_scan repaired (pre ++ ds) (length pre) v = Ok (keepb ds v).
+Proof.
+  induction v as [|o r IH]; intros pre ds Hl.
+  - destruct ds; [reflexivity | discriminate].
+  - destruct ds as [|mx ds]; [discriminate|]. simpl in Hl.
+    cbn [keep_scan repaired fx_dirs].
+    unfold nth_res. rewrite nth_error_app2 by lia. rewrite Nat.sub_diag. cbn [nth_error bind].
+    replace (pre ++ mx :: ds) with ((pre ++ [mx]) ++ ds) by (rewrite <- app_assoc; reflexivity).
+    replace (S (length pre)) with (length (pre ++ [mx])) by (rewrite app_length; simpl; lia).
+    rewrite IH by lia. cbn [bind]. reflexivity.
+Qed.
+
+Lemma zip2_as_map {A B C} (f : A -> B -> C) da db : forall n a b,
+  length a = n -> length b = n ->
+  zip2 f a b = map (fun i => f (nth i a da) (nth i b db)) (seq 0 n).
+Proof.
+  induction n as [|n IH]; intros a b Ha Hb.
+  - destruct a; [reflexivity | discriminate].
+  - destruct a as [|x a]; [discriminate|]. destruct b as [|y b]; [discriminate|].
+    simpl. f_equal. rewrite <- seq_shift, map_map. apply IH; simpl in *; lia.
+Qed.
+
+Lemma invert_vec_ok nobjs dirs v : length dirs = nobjs -> length v = nobjs ->
+  invert_vec repaired nobjs dirs v = Ok (goodv dirs v).
+Proof.
+  intros Hd Hv. unfold invert_vec, goodv. rewrite (zip2_as_map goodness false 0 nobjs dirs v Hd Hv).
+  apply mapM_ok_map. intros i Hi. apply in_seq in Hi.
+  rewrite (nth_res_ok dirs i false) by lia. rewrite (nth_res_ok v i 0) by lia. reflexivity.
+Qed.
+
+Lemma goodv_length dirs v n : length dirs = n -> length v = n -> length (goodv dirs v) = n.
+Proof.
+  intros Hd Hv. unfold goodv. rewrite (zip2_as_map goodness false 0 n dirs v Hd Hv).
+  now rewrite map_length, seq_length.
+Qed.
+
+Lemma clip01_range x : 0 <= clip01 x <= 1.
+Proof.
+  unfold clip01. destruct (Qltb x 1) eqn:E1.
+  - apply Qltb_lt in E1. destruct (Qltb 0 x) eqn:E2; [apply Qltb_lt in E2; lra | lra].
+  - destruct (Qltb 0 1) eqn:E2; [lra | apply Qltb_false in E2; lra].
+Qed.
+
+Lemma goodness_range mx x : 0 <= goodness mx x <= 1.
+Proof. unfold goodness. pose proof (clip01_range x). destruct mx; lra. Qed.
+
+Lemma coord_goodv : forall dirs v i, 0 <= coord (goodv dirs v) i <= 1.
+Proof.
+  unfold coord, goodv. induction dirs as [|mx ds IH]; intros v i.
+  - simpl. destruct i; simpl; lra.
+  - destruct v as [|x r]; [simpl; destruct i; simpl; lra|].
+    destruct i as [|i]; simpl; [apply goodness_range | apply IH].
+Qed.
+
+Lemma nnA_goodv {A} dirs (f : A -> list Q) l : nnA (map (fun s => goodv dirs (f s)) l).
+Proof.
+  unfold nnA, aget. induction l as [|x r IH]; intro t.
+  - destruct t; apply nnpt_nil.
+  - destruct t as [|t]; simpl; [intro i; apply coord_goodv | apply IH].
+Qed.
+
+(* {id(s): s for s in feasible}.values() *)
+Lemma dedup_sid_spec : forall l seen,
+  incl (dedup_sid seen l) l /\
+  (forall s, In s (dedup_sid seen l) -> ~ In (s_sid s) seen) /\
+  NoDup (map s_sid (dedup_sid seen l)) /\
+  (forall s, In s l -> ~ In (s_sid s) seen -> exists s', In s' (dedup_sid seen l) /\ s_sid s' = s_sid s).
+Proof.
+  induction l as [|x r IH]; intro seen; simpl.
+  - split; [apply incl_refl|]. split; [contradiction|]. split; [constructor | contradiction].
+  - destruct (existsb (Nat.eqb (s_sid x)) seen) eqn:E.
+    + destruct (IH seen) as [A [B [C D]]]. split; [now apply incl_tl|]. split; [exact B|]. split; [exact C|].
+      intros s [<-|Hs] Hns; [|now apply D].
+      exfalso. apply Hns. apply existsb_exists in E. destruct E as [k [Hk Ek]]. apply Nat.eqb_eq in Ek. now rewrite Ek.
+    + assert (Hx : ~ In (s_sid x) seen).
+      { intro Hin. assert (existsb (Nat.eqb (s_sid x)) seen = true).
+        { apply existsb_exists. exists (s_sid x). split; [exact Hin | apply Nat.eqb_refl]. } congruence. }
+      destruct (IH (s_sid x :: seen)) as [A [B [C D]]]. split.
+      { intros s [<-|Hs]; [now left | right; now apply A]. }
+      split.
+      { intros s [<-|Hs]; [exact Hx|]. intro Hin. apply (B s Hs). now right. }
+      split.
+      { simpl. constructor; [|exact C]. intro Hin. apply in_map_iff in Hin. destruct Hin as [s [Es Hs]].
+        apply (B s Hs). left. now symmetry. }
+      intros s [<-|Hs] Hns; [exists x; split; [now left | reflexivity]|].
+      destruct (Nat.eq_dec (s_sid s) (s_sid x)) as [Ee|Ne].
+      * exists x. split; [now left | now symmetry].
+      * destruct (D s Hs) as [s' [Hs' Es']].
+        { intros [Hc|Hc]; [now apply Ne | now apply Hns]. }
+        exists s'. split; [now right | exact Es'].
+Qed.
+
+Lemma invert_all_ok nobjs dirs (N : isol -> list Q) : forall l st,
+  NoDup (map s_sid l) -> (forall s, In s l -> store_get st (s_sid s) = Ok (N s)) ->
+  (forall s, In s l -> length (N s) = nobjs) -> length dirs = nobjs ->
+  exists st', invert_all repaired nobjs dirs st l = Ok st' /\
+    (forall s, In s l -> store_get st' (s_sid s) = Ok (goodv dirs (N s))) /\
+    (forall k, ~ In k (map s_sid l) -> store_get st' k = store_get st k).
+Proof.
+  induction l as [|x r IH]; intros st Hnd Hget Hlen Hd.
+  - exists st. split; [reflexivity|]. split; [contradiction | reflexivity].
+  - simpl in Hnd. inversion_clear Hnd as [|? ? Hnx Hndr].
+    cbn [invert_all]. rewrite (Hget x (or_introl eq_refl)). cbn [bind].
+    rewrite (invert_vec_ok nobjs dirs (N x) Hd (Hlen x (or_introl eq_refl))). cbn [bind].
+    destruct (IH (store_set st (s_sid x) (goodv dirs (N x))) Hndr) as [st' [R [G O]]].
+    + intros s Hs. rewrite store_get_set. destruct (Nat.eqb_spec (s_sid s) (s_sid x)) as [E|E].
+      * exfalso. apply Hnx. rewrite <- E. now apply in_map.
+      * apply Hget. now right.
+    + intros s Hs. apply Hlen. now right.
+    + exact Hd.
+    + exists st'. split; [exact R|]. split.
+      * intros s [<-|Hs]; [|now apply G]. rewrite (O (s_sid x) Hnx). rewrite store_get_set. now rewrite Nat.eqb_refl.
+      * intros k Hk. rewrite O by (intro C; apply Hk; now right). rewrite store_get_set.
+        destruct (Nat.eqb_spec k (s_sid x)) as [E|E]; [|reflexivity]. exfalso. apply Hk. left. now symmetry.
+Qed.
+
+(* spec_points as map/filter over the feasible members *)
+Lemma spec_points_eq dirs mins maxs set :
+  spec_points dirs mins maxs set =
+  map (fun s => goodv dirs (normv mins maxs (s_objs s)))
+      (filter (fun s => keepb dirs (normv mins maxs (s_objs s))) (feasible set)).
+Proof.
+  unfold spec_points, spec_norm. rewrite filter_map_comm, map_map. reflexivity.
+Qed.
+
+Lemma nnP_spec_points dirs mins maxs set : nnP (spec_points dirs mins maxs set).
+Proof.
+  rewrite spec_points_eq. intros p Hp. apply in_map_iff in Hp. destruct Hp as [s [<- _]].
+  intro i. apply coord_goodv.
+Qed.
+
+Lemma spec_points_le1 dirs mins maxs set p i : In p (spec_points dirs mins maxs set) -> coord p i <= 1.
+Proof.
+  rewrite spec_points_eq. intro Hp. apply in_map_iff in Hp. destruct Hp as [s [<- _]]. apply coord_goodv.
+Qed.
+
+(* THE REFINEMENT THEOREM.  For every number of objectives >= 2, all direction vectors,
+   all bounds that normalize accepts, every initial content of the objects'
+   normalized_objectives attributes and every well-formed set (ties, duplicates, the same
+   object listed several times, infeasible members, points beyond both bounds), the literal
+   model of Hypervolume.calculate returns (never an error, never out of fuel) the measure
+   of the union of the boxes of the points selected by the English statement. *)
+Theorem hv_exact nobjs dirs mins maxs st set :
+  (2 <= nobjs)%nat -> length dirs = nobjs -> length mins = nobjs -> length maxs = nobjs ->
+  empty_range nobjs mins maxs = Ok false -> wf_set nobjs (feasible set) ->
+  exists v st', hv_calculate repaired nobjs dirs mins maxs st set = Ok (v, st') /\
+                v == hv_spec nobjs (spec_points dirs mins maxs set).
+Proof.
+  intros HD Hd Hlo Hhi He Hwf. unfold hv_calculate.
+  set (N := fun s => normv mins maxs (s_objs s)).
+  destruct (feasible set) as [|s0 r0] eqn:Efeas.
+  - (* no feasible member *)
+    rewrite normalize_nil. cbn [bind snd filterM].
+    exists 0, st. split; [reflexivity|]. rewrite spec_points_eq. rewrite Efeas. simpl.
+    now rewrite hv_nil.
+  - set (feas := s0 :: r0) in *.
+    assert (Hfeas : feasible feas = feas) by (rewrite <- Efeas; apply feasible_idem).
+    destruct Hwf as [Hlen Hfun].
+    rewrite (normalize_explicit_ok nobjs st feas mins maxs); auto;
+      [| unfold feas; discriminate | rewrite Hfeas; exact Hlen].
+    cbn [bind snd]. rewrite Hfeas. fold N.
+    set (st1 := writes N st feas).
+    assert (G1 : forall s, In s feas -> store_get st1 (s_sid s) = Ok (N s)).
+    { intros s Hs. apply (writes_get N nobjs feas st s); [split; assumption | exact Hs]. }
+    assert (LN : forall s, In s feas -> length (N s) = nobjs).
+    { intros s Hs. apply normv_length; auto. }
+    (* the worse-than-nadir filter *)
+    rewrite (filterM_ok _ (fun s => keepb dirs (N s)) feas).
+    2:{ intros s Hs. cbv beta. rewrite (G1 s Hs). cbn [bind].
+        pose proof (keep_scan_ok (N s) [] dirs) as K. simpl in K. apply K. rewrite LN; auto. }
+    cbn [bind].
+    destruct (filter (fun s => keepb dirs (N s)) feas) as [|s1 r1] eqn:E2.
+    + exists 0, st1. split; [reflexivity|]. rewrite spec_points_eq. rewrite Efeas. unfold N in E2. rewrite E2.
+      simpl. now rewrite hv_nil.
+    + set (feas2 := s1 :: r1) in *. cbn [repaired fx_once].
+      assert (I2 : incl feas2 feas) by (intros s Hs; rewrite <- E2 in Hs; apply filter_In in Hs; tauto).
+      destruct (dedup_sid_spec feas2 []) as [DA [_ [DC DD]]].
+      destruct (invert_all_ok nobjs dirs N (dedup_sid [] feas2) st1 DC) as [st2 [R2 [G2 _]]].
+      * intros s Hs. apply G1. apply I2. now apply DA.
+      * intros s Hs. apply LN. apply I2. now apply DA.
+      * exact Hd.
+      * rewrite R2. cbn [bind].
+        assert (G2' : forall s, In s feas2 -> store_get st2 (s_sid s) = Ok (goodv dirs (N s))).
+        { intros s Hs. destruct (DD s Hs ltac:(intros [])) as [s' [Hs' Es']].
+          assert (s' = s) by (apply Hfun; [apply I2; now apply DA | now apply I2 | exact Es']). subst s'.
+          now apply G2. }
+        rewrite (mapM_ok_map _ (fun s => goodv dirs (N s)) feas2) by exact G2'.
+        cbn [bind].
+        set (arr := map (fun s => goodv dirs (N s)) feas2).
+        assert (Hnn : nnA arr) by (unfold arr; apply nnA_goodv).
+        assert (Hla : length feas2 = length arr) by (unfold arr; now rewrite map_length).
+        rewrite Hla.
+        destruct (calc_internal_ok nobjs arr (length arr) HD (Nat.le_refl _) Hnn) as [v [a' [R [Ev _]]]].
+        rewrite R. cbn [bind fst].
+        exists v, st2. split; [reflexivity|].
+        rewrite Ev, firstn_all. rewrite spec_points_eq. rewrite Efeas. unfold arr, feas2. unfold N in E2. rewrite E2. reflexivity.
+Qed.
+
+(* ---------- user-facing corollaries about `calculate` ---------- *)
+Definition hv_pre (nobjs : nat) (dirs : list bool) (mins maxs : list Q) : Prop :=
+  (2 <= nobjs)%nat /\ length dirs = nobjs /\ length mins = nobjs /\ length maxs = nobjs /\
+  empty_range nobjs mins maxs = Ok false.
+
+Lemma hv_exact' nobjs dirs mins maxs st set :
+  hv_pre nobjs dirs mins maxs -> wf_set nobjs (feasible set) ->
+  exists v st', hv_calculate repaired nobjs dirs mins maxs st set = Ok (v, st') /\
+                v == hv_spec nobjs (spec_points dirs mins maxs set).
+Proof. intros [A [B [C [D E]]]] W. now apply hv_exact. Qed.
+
+Lemma spec_points_app dirs mins maxs l1 l2 :
+  spec_points dirs mins maxs (l1 ++ l2) = spec_points dirs mins maxs l1 ++ spec_points dirs mins maxs l2.
+Proof. rewrite !spec_points_eq. now rewrite feasible_app, filter_app, map_app. Qed.
+
+Lemma spec_points_one dirs mins maxs s :
+  spec_points dirs mins maxs [s] =
+  if feasibleb s && keepb dirs (normv mins maxs (s_objs s)) then [goodv dirs (normv mins maxs (s_objs s))] else [].
+Proof.
+  rewrite spec_points_eq. unfold feasible. simpl. destruct (feasibleb s); simpl; [|reflexivity].
+  destruct (keepb dirs (normv mins maxs (s_objs s))); reflexivity.
+Qed.
+
+Lemma spec_points_insert dirs mins maxs l1 s l2 :
+  spec_points dirs mins maxs (l1 ++ s :: l2) =
+  spec_points dirs mins maxs l1 ++ spec_points dirs mins maxs [s] ++ spec_points dirs mins maxs l2.
+Proof.
+  replace (l1 ++ s :: l2) with (l1 ++ [s] ++ l2) by reflexivity. now rewrite !spec_points_app.
+Qed.
+
+Lemma spec_points_perm dirs mins maxs l l' :
+  Permutation l l' -> Permutation (spec_points dirs mins maxs l) (spec_points dirs mins maxs l').
+Proof.
+  intro Hp. rewrite !spec_points_eq. apply Permutation_map.
+  assert (Hf : forall (p : isol -> bool) a b, Permutation a b -> Permutation (filter p a) (filter p b)).
+  { intros p a b Hab. induction Hab; simpl.
+    - constructor.
+    - destruct (p x); [now constructor | assumption].
+    - destruct (p x), (p y); [apply perm_swap | apply Permutation_refl | apply Permutation_refl | apply Permutation_refl].
+    - now apply Permutation_trans with (filter p l'0). }
+  apply Hf. unfold feasible. now apply Hf.
+Qed.
+
+Lemma nnP_app A B : nnP A -> nnP B -> nnP (A ++ B).
+Proof. intros HA HB p Hp. apply in_app_or in Hp. destruct Hp; auto. Qed.
+
+(* range *)
+Theorem hv_calc_range nobjs dirs mins maxs st set :
+  hv_pre nobjs dirs mins maxs -> wf_set nobjs (feasible set) ->
+  exists v st', hv_calculate repaired nobjs dirs mins maxs st set = Ok (v, st') /\ 0 <= v <= 1.
+Proof.
+  intros Hp Hw. destruct (hv_exact' nobjs dirs mins maxs st set Hp Hw) as [v [st' [R E]]].
+  exists v, st'. split; [exact R|]. rewrite E. apply hv_spec_range; [apply nnP_spec_points|].
+  intros p i Hin _. now apply spec_points_le1 with dirs mins maxs set.
+Qed.
+
+(* order independence *)
+Theorem hv_calc_perm nobjs dirs mins maxs st st0 set set' :
+  hv_pre nobjs dirs mins maxs -> wf_set nobjs (feasible set) -> Permutation set set' ->
+  exists v st1 v' st1', hv_calculate repaired nobjs dirs mins maxs st set = Ok (v, st1) /\
+    hv_calculate repaired nobjs dirs mins maxs st0 set' = Ok (v', st1') /\ v == v'.
+Proof.
+  intros Hp Hw Hperm.
+  assert (Hw' : wf_set nobjs (feasible set')).
+  { apply wf_set_incl with (feasible set); [|exact Hw]. intros x Hx. apply feasible_in in Hx. apply feasible_in.
+    split; [|tauto]. apply Permutation_in with set'; [now apply Permutation_sym | tauto]. }
+  destruct (hv_exact' nobjs dirs mins maxs st set Hp Hw) as [v [st1 [R E]]].
+  destruct (hv_exact' nobjs dirs mins maxs st0 set' Hp Hw') as [v' [st1' [R' E']]].
+  exists v, st1, v', st1'. split; [exact R|]. split; [exact R'|]. rewrite E, E'.
+  apply hv_spec_perm; [apply nnP_spec_points | now apply spec_points_perm].
+Qed.
+
+(* adding a solution (anywhere) never decreases the value *)
+Theorem hv_calc_monotone nobjs dirs mins maxs st st0 l1 l2 s :
+  hv_pre nobjs dirs mins maxs -> wf_set nobjs (feasible (l1 ++ s :: l2)) ->
+  exists v st1 v' st1', hv_calculate repaired nobjs dirs mins maxs st (l1 ++ l2) = Ok (v, st1) /\
+    hv_calculate repaired nobjs dirs mins maxs st0 (l1 ++ s :: l2) = Ok (v', st1') /\ v <= v'.
+Proof.
+  intros Hp Hw'.
+  assert (Hw : wf_set nobjs (feasible (l1 ++ l2))).
+  { apply wf_set_incl with (feasible (l1 ++ s :: l2)); [|exact Hw']. intros x Hx. apply feasible_in in Hx.
+    apply feasible_in. split; [|tauto]. destruct Hx as [Hx _]. apply in_app_or in Hx. apply in_or_app.
+    destruct Hx; [now left | right; now right]. }
+  destruct (hv_exact' nobjs dirs mins maxs st _ Hp Hw) as [v [st1 [R E]]].
+  destruct (hv_exact' nobjs dirs mins maxs st0 _ Hp Hw') as [v' [st1' [R' E']]].
+  exists v, st1, v', st1'. split; [exact R|]. split; [exact R'|]. rewrite E, E'.
+  rewrite spec_points_insert, spec_points_app, spec_points_one.
+  destruct (feasibleb s && keepb dirs (normv mins maxs (s_objs s))); simpl.
+  - apply hv_spec_monotone.
+    + apply nnP_app; apply nnP_spec_points.
+    + intro i. apply coord_goodv.
+  - lra.
+Qed.
+
+(* coordinates of the vectors built by zipping *)
+Lemma nth_map_seq {B} (f : nat -> B) n i d : (i < n)%nat -> nth i (map f (seq 0 n)) d = f i.
+Proof.
+  intro Hi. rewrite (nth_indep _ d (f 0%nat)) by (now rewrite map_length, seq_length).
+  rewrite map_nth. now rewrite seq_nth.
+Qed.
+
+Lemma coord_goodv_normv nobjs dirs mins maxs o i :
+  length dirs = nobjs -> length mins = nobjs -> length maxs = nobjs -> length o = nobjs -> (i < nobjs)%nat ->
+  coord (goodv dirs (normv mins maxs o)) i =
+  goodness (nth i dirs false) ((nth i o 0 - nth i mins 0) / (nth i maxs 0 - nth i mins 0)).
+Proof.
+  intros Hd Hlo Hhi Ho Hi. unfold coord, goodv.
+  rewrite (zip2_as_map goodness false 0 nobjs dirs (normv mins maxs o) Hd (normv_length _ _ _ _ Ho Hlo Hhi)).
+  rewrite nth_map_seq by exact Hi. f_equal.
+  unfold normv. rewrite (zip3_as_map _ 0 0 0 nobjs o mins maxs Ho Hlo Hhi). now rewrite nth_map_seq.
+Qed.
+
+Lemma keepb_spec nobjs dirs mins maxs o :
+  length dirs = nobjs -> length mins = nobjs -> length maxs = nobjs -> length o = nobjs ->
+  (keepb dirs (normv mins maxs o) = true <->
+   forall i, (i < nobjs)%nat ->
+     not_worse_than_nadir (nth i dirs false) ((nth i o 0 - nth i mins 0) / (nth i maxs 0 - nth i mins 0)) = true).
+Proof.
+  intros Hd Hlo Hhi Ho. unfold keepb.
+  rewrite (zip2_as_map not_worse_than_nadir false 0 nobjs dirs (normv mins maxs o) Hd (normv_length _ _ _ _ Ho Hlo Hhi)).
+  rewrite forallb_forall. unfold normv. rewrite (zip3_as_map _ 0 0 0 nobjs o mins maxs Ho Hlo Hhi). split.
+  - intros Hall i Hi. specialize (Hall (not_worse_than_nadir (nth i dirs false)
+        (nth i (map (fun i0 => (nth i0 o 0 - nth i0 mins 0) / (nth i0 maxs 0 - nth i0 mins 0)) (seq 0 nobjs)) 0))).
+    rewrite nth_map_seq in Hall by exact Hi. apply Hall. apply in_map_iff. exists i. split; [|apply in_seq; lia].
+    now rewrite nth_map_seq.
+  - intros Hall b Hb. apply in_map_iff in Hb. destruct Hb as [i [<- Hi]]. apply in_seq in Hi.
+    rewrite nth_map_seq by lia. apply Hall. lia.
+Qed.
+
+Lemma clip01_mono x y : x <= y -> clip01 x <= clip01 y.
+Proof.
+  intro Hxy. unfold clip01.
+  destruct (Qltb x 1) eqn:Ex; destruct (Qltb y 1) eqn:Ey;
+    try apply Qltb_lt in Ex; try apply Qltb_lt in Ey; try apply Qltb_false in Ex; try apply Qltb_false in Ey.
+  - destruct (Qltb 0 x) eqn:Fx; destruct (Qltb 0 y) eqn:Fy;
+      try apply Qltb_lt in Fx; try apply Qltb_lt in Fy; try apply Qltb_false in Fx; try apply Qltb_false in Fy; lra.
+  - destruct (Qltb 0 x) eqn:Fx; destruct (Qltb 0 1) eqn:Fy;
+      try apply Qltb_lt in Fx; try apply Qltb_lt in Fy; try apply Qltb_false in Fx; try apply Qltb_false in Fy; lra.
+  - lra.
+  - lra.
+Qed.
+
+Lemma Qdiv_le_mono a b c : 0 < c -> a <= b -> a / c <= b / c.
+Proof.
+  intros Hc Hab. unfold Qdiv. apply Qmult_le_compat_r; [exact Hab|].
+  apply Qlt_le_weak. now apply Qinv_lt_0_compat.
+Qed.
+
+(* "s is no better than q in objective i" in the declared direction *)
+Definition no_better (dirs : list bool) (s q : isol) : Prop :=
+  forall i, (i < length dirs)%nat ->
+    if nth i dirs false then nth i (s_objs s) 0 <= nth i (s_objs q) 0
+    else nth i (s_objs q) 0 <= nth i (s_objs s) 0.
+
+(* adding (anywhere) a solution that is no better than a feasible member in every objective,
+   a duplicate of a member, or a member once more, changes nothing *)
+Theorem hv_calc_dominated nobjs dirs mins maxs st st0 l1 l2 s q :
+  hv_pre nobjs dirs mins maxs -> (forall i, (i < nobjs)%nat -> nth i mins 0 < nth i maxs 0) ->
+  wf_set nobjs (feasible (l1 ++ s :: l2)) ->
+  In q (feasible (l1 ++ l2)) -> no_better dirs s q ->
+  exists v st1 v' st1', hv_calculate repaired nobjs dirs mins maxs st (l1 ++ l2) = Ok (v, st1) /\
+    hv_calculate repaired nobjs dirs mins maxs st0 (l1 ++ s :: l2) = Ok (v', st1') /\ v == v'.
+Proof.
+  intros Hp Hpos Hw' Hq Hnb.
+  assert (Hw : wf_set nobjs (feasible (l1 ++ l2))).
+  { apply wf_set_incl with (feasible (l1 ++ s :: l2)); [|exact Hw']. intros x Hx. apply feasible_in in Hx.
+    apply feasible_in. split; [|tauto]. destruct Hx as [Hx _]. apply in_app_or in Hx. apply in_or_app.
+    destruct Hx; [now left | right; now right]. }
+  destruct (hv_exact' nobjs dirs mins maxs st _ Hp Hw) as [v [st1 [R E]]].
+  destruct (hv_exact' nobjs dirs mins maxs st0 _ Hp Hw') as [v' [st1' [R' E']]].
+  exists v, st1, v', st1'. split; [exact R|]. split; [exact R'|]. rewrite E, E'.
+  rewrite spec_points_insert, spec_points_app, spec_points_one.
+  destruct (feasibleb s && keepb dirs (normv mins maxs (s_objs s))) eqn:Es; simpl; [|reflexivity].
+  apply andb_true_iff in Es. destruct Es as [Fs Ks].
+  destruct Hp as [HD [Hd [Hlo [Hhi He]]]].
+  assert (Ls : length (s_objs s) = nobjs).
+  { apply (proj1 Hw'). apply feasible_in. split; [apply in_or_app; right; now left | exact Fs]. }
+  assert (Lq : length (s_objs q) = nobjs) by (apply (proj1 Hw); exact Hq).
+  (* normalised coordinates compare like the raw ones *)
+  assert (Hcmp : forall i, (i < nobjs)%nat ->
+    let zs := (nth i (s_objs s) 0 - nth i mins 0) / (nth i maxs 0 - nth i mins 0) in
+    let zq := (nth i (s_objs q) 0 - nth i mins 0) / (nth i maxs 0 - nth i mins 0) in
+    if nth i dirs false then zs <= zq else zq <= zs).
+  { intros i Hi. specialize (Hnb i ltac:(lia)). specialize (Hpos i Hi). cbv zeta.
+    destruct (nth i dirs false); apply Qdiv_le_mono; lra. }
+  (* q passes the nadir filter because s does *)
+  assert (Kq : keepb dirs (normv mins maxs (s_objs q)) = true).
+  { apply (keepb_spec nobjs); auto. intros i Hi.
+    pose proof (proj1 (keepb_spec nobjs dirs mins maxs (s_objs s) Hd Hlo Hhi Ls) Ks i Hi) as Ksi.
+    specialize (Hcmp i Hi). cbv zeta in Hcmp. unfold not_worse_than_nadir in *.
+    destruct (nth i dirs false); apply Qle_bool_iff; apply Qle_bool_iff in Ksi; lra. }
+  symmetry. apply (hv_spec_dominated nobjs _ _ _ (goodv dirs (normv mins maxs (s_objs q)))).
+  - apply nnP_app; apply nnP_spec_points.
+  - intro i. apply coord_goodv.
+  - rewrite <- spec_points_app. rewrite spec_points_eq. apply in_map_iff. exists q. split; [reflexivity|].
+    apply filter_In. split; [exact Hq | exact Kq].
+  - intros i Hi. rewrite !(coord_goodv_normv nobjs) by auto.
+    specialize (Hcmp i Hi). cbv zeta in Hcmp. unfold goodness.
+    destruct (nth i dirs false).
+    + now apply clip01_mono.
+    + pose proof (clip01_mono _ _ Hcmp). lra.
+Qed.
+
+Lemma spec_points_in dirs mins maxs l s : In s l -> incl (spec_points dirs mins maxs [s]) (spec_points dirs mins maxs l).
+Proof.
+  intros Hs p Hp. rewrite spec_points_one in Hp.
+  destruct (feasibleb s && keepb dirs (normv mins maxs (s_objs s))) eqn:E; [|contradiction].
+  destruct Hp as [<-|[]]. apply andb_true_iff in E. destruct E as [F K].
+  rewrite spec_points_eq. apply in_map_iff. exists s. split; [reflexivity|].
+  apply filter_In. split; [|exact K]. apply feasible_in. now split.
+Qed.
+
+(* a duplicate (another object with the same objectives and violation) of a listed solution *)
+Theorem hv_calc_duplicate nobjs dirs mins maxs st st0 l1 l2 s s' :
+  hv_pre nobjs dirs mins maxs -> wf_set nobjs (feasible (l1 ++ s' :: l2)) ->
+  In s (l1 ++ l2) -> s_objs s' = s_objs s -> s_cv s' = s_cv s ->
+  exists v st1 v' st1', hv_calculate repaired nobjs dirs mins maxs st (l1 ++ l2) = Ok (v, st1) /\
+    hv_calculate repaired nobjs dirs mins maxs st0 (l1 ++ s' :: l2) = Ok (v', st1') /\ v == v'.
+Proof.
+  intros Hp Hw' Hs Eo Ec.
+  assert (Hw : wf_set nobjs (feasible (l1 ++ l2))).
+  { apply wf_set_incl with (feasible (l1 ++ s' :: l2)); [|exact Hw']. intros x Hx. apply feasible_in in Hx.
+    apply feasible_in. split; [|tauto]. destruct Hx as [Hx _]. apply in_app_or in Hx. apply in_or_app.
+    destruct Hx; [now left | right; now right]. }
+  destruct (hv_exact' nobjs dirs mins maxs st _ Hp Hw) as [v [st1 [R E]]].
+  destruct (hv_exact' nobjs dirs mins maxs st0 _ Hp Hw') as [v' [st1' [R' E']]].
+  exists v, st1, v', st1'. split; [exact R|]. split; [exact R'|]. rewrite E, E'.
+  assert (E1 : spec_points dirs mins maxs [s'] = spec_points dirs mins maxs [s]).
+  { rewrite !spec_points_one. unfold feasibleb. now rewrite Eo, Ec. }
+  pose proof (spec_points_in dirs mins maxs (l1 ++ l2) s Hs) as Hin. rewrite <- E1 in Hin.
+  rewrite spec_points_insert. rewrite spec_points_app in *.
+  apply hv_spec_seteq.
+  - apply nnP_app; apply nnP_spec_points.
+  - intros p Hp'. apply in_app_or in Hp'. apply in_or_app. destruct Hp'; [now left | right; apply in_or_app; now right].
+  - intros p Hp'. apply in_app_or in Hp'. destruct Hp' as [Hp'|Hp']; [apply in_or_app; now left|].
+    apply in_app_or in Hp'. destruct Hp' as [Hp'|Hp']; [now apply Hin | apply in_or_app; now right].
+Qed.
+
+(* the same object listed once more *)
+Theorem hv_calc_repeated nobjs dirs mins maxs st st0 l1 l2 s :
+  hv_pre nobjs dirs mins maxs -> wf_set nobjs (feasible (l1 ++ l2)) -> In s (l1 ++ l2) ->
+  exists v st1 v' st1', hv_calculate repaired nobjs dirs mins maxs st (l1 ++ l2) = Ok (v, st1) /\
+    hv_calculate repaired nobjs dirs mins maxs st0 (l1 ++ s :: l2) = Ok (v', st1') /\ v == v'.
+Proof.
+  intros Hp Hw Hs. apply hv_calc_duplicate with s; auto.
+  apply wf_set_incl with (feasible (l1 ++ l2)); [|exact Hw]. intros x Hx. apply feasible_in in Hx.
+  apply feasible_in. split; [|tauto]. destruct Hx as [Hx _]. apply in_app_or in Hx.
+  destruct Hx as [Hx|[<-|Hx]]; [apply in_or_app; now left | exact Hs | apply in_or_app; now right].
+Qed.
+
+(* ---------- inclusion-exclusion: hv_spec IS the measure of the union of boxes ---------- *)
+(* box(p) n box(q) = box(pmin p q) *)
+Definition qmin2 (a b : Q) : Q := if Qltb b a then b else a.
+Fixpoint pmin (p q : point) : point :=
+  match p, q with
+  | a :: p', b :: q' => qmin2 a b :: pmin p' q'
+  | _, _ => []
+  end.
+
+Lemma nnpt_tail a p : nnpt (a :: p) -> nnpt p.
+Proof. intros H i. exact (H (S i)). Qed.
+
+Lemma coord_pmin : forall p q i, nnpt p -> nnpt q -> coord (pmin p q) i == qmin2 (coord p i) (coord q i).
+Proof.
+  induction p as [|a p IH]; intros q i Hp Hq.
+  - simpl. unfold qmin2. assert (coord [] i = 0) by (unfold coord; destruct i; reflexivity). rewrite H.
+    specialize (Hq i). destruct (Qltb (coord q i) 0) eqn:E; [apply Qltb_lt in E; lra | reflexivity].
+  - destruct q as [|b q].
+    + simpl. unfold qmin2. assert (coord [] i = 0) by (unfold coord; destruct i; reflexivity). rewrite H.
+      specialize (Hp i). destruct (Qltb 0 (coord (a :: p) i)) eqn:E; [reflexivity | apply Qltb_false in E; lra].
+    + destruct i as [|i]; [reflexivity|]. simpl pmin. unfold coord. simpl nth.
+      apply (IH q i (nnpt_tail a p Hp) (nnpt_tail b q Hq)).
+Qed.
+
+Lemma qmin2_le_l a b : qmin2 a b <= a.
+Proof. unfold qmin2. destruct (Qltb b a) eqn:E; [apply Qltb_lt in E; lra | lra]. Qed.
+Lemma qmin2_le_r a b : qmin2 a b <= b.
+Proof. unfold qmin2. destruct (Qltb b a) eqn:E; [lra | apply Qltb_false in E; lra]. Qed.
+Lemma qmin2_glb a b c : c <= a -> c <= b -> c <= qmin2 a b.
+Proof. unfold qmin2. destruct (Qltb b a); auto. Qed.
+
+Lemma nnpt_pmin p q : nnpt p -> nnpt q -> nnpt (pmin p q).
+Proof. intros Hp Hq i. rewrite coord_pmin by assumption. apply qmin2_glb; auto. Qed.
+
+Lemma nnP_map_pmin p P : nnpt p -> nnP P -> nnP (map (pmin p) P).
+Proof. intros Hp HP x Hx. apply in_map_iff in Hx. destruct Hx as [q [<- Hq]]. apply nnpt_pmin; auto. Qed.
+
+Lemma filter_none {A} (f : A -> bool) l : (forall x, In x l -> f x = false) -> filter f l = [].
+Proof.
+  induction l as [|a r IH]; intro Hall; simpl; [reflexivity|].
+  rewrite (Hall a (or_introl eq_refl)). apply IH. intros; apply Hall; now right.
+Qed.
+
+Section IE.
+  Variable k : nat.
+  Hypothesis IHk : forall p P, nnpt p -> nnP P ->
+    hv_spec k (p :: P) == hv_spec k P + boxvol k p - hv_spec k (map (pmin p) P).
+
+  Lemma coord_pmin_k p q : nnpt p -> nnpt q ->
+    coord (pmin p q) k <= coord p k /\ coord (pmin p q) k <= coord q k /\
+    (forall m, m < coord p k -> m < coord q k -> m < coord (pmin p q) k).
+  Proof.
+    intros Hp Hq. pose proof (coord_pmin p q k Hp Hq) as E.
+    pose proof (qmin2_le_l (coord p k) (coord q k)). pose proof (qmin2_le_r (coord p k) (coord q k)).
+    split; [lra|]. split; [lra|]. intros m A B. rewrite E. unfold qmin2. destruct (Qltb (coord q k) (coord p k)); assumption.
+  Qed.
+
+  Lemma ie_peel : forall n p P b, (length P <= n)%nat -> nnpt p -> nnP P -> lb k b (p :: P) ->
+    peel (hv_spec k) k (S n) b (p :: P) ==
+    peel (hv_spec k) k n b P + (coord p k - b) * boxvol k p - peel (hv_spec k) k n b (map (pmin p) P).
+  Proof.
+    induction n as [|n IH]; intros p P b Hn Hp HP Hb.
+    - destruct P; [|simpl in Hn; lia]. rewrite peel_cons. simpl map. rewrite !peel_nil.
+      unfold lastmin. simpl qmin_from. rewrite hv_single. simpl peel. ring.
+    - set (A := p :: P). set (m := lastmin k A).
+      assert (HmA : lb k m A) by apply lb_lastmin.
+      assert (HmP : lb k m P) by (intros q Hq; apply HmA; now right).
+      assert (Hmp : m <= coord p k) by (apply HmA; now left).
+      assert (HmM : lb k m (map (pmin p) P)).
+      { intros x Hx. apply in_map_iff in Hx. destruct Hx as [q [<- Hq]].
+        destruct (Qlt_le_dec (coord (pmin p q) k) m) as [L|G]; [|exact G]. exfalso.
+        pose proof (HmP q Hq) as Hq'.
+        destruct (coord_pmin_k p q Hp (HP q Hq)) as [_ [_ Hglb]].
+        (* m <= both, so the minimum cannot be below m unless it equals... use glb on any m' < m *)
+        pose proof (coord_pmin p q k Hp (HP q Hq)) as E. rewrite E in L. unfold qmin2 in L.
+        destruct (Qltb (coord q k) (coord p k)); lra. }
+      unfold A at 1. rewrite peel_cons. fold A. fold m.
+      rewrite (peel_split (hv_spec k) k (hv_nil_eq k) (S n) b m P HmP Hn).
+      rewrite (peel_split (hv_spec k) k (hv_nil_eq k) (S n) b m (map (pmin p) P) HmM ltac:(rewrite map_length; exact Hn)).
+      pose proof (IHk p P Hp HP) as EH. fold A in EH. rewrite EH. clear EH.
+      assert (Key : peel (hv_spec k) k (S n) m (above k m A) ==
+                    peel (hv_spec k) k (S n) m (above k m P) + (coord p k - m) * boxvol k p
+                    - peel (hv_spec k) k (S n) m (above k m (map (pmin p) P))).
+      { destruct (Qlt_le_dec m (coord p k)) as [Lt|Le].
+        - (* p survives the cut *)
+          assert (EA : above k m A = p :: above k m P).
+          { unfold above, A. simpl. replace (Qltb m (coord p k)) with true by (symmetry; now apply Qltb_lt). reflexivity. }
+          assert (EM : above k m (map (pmin p) P) = map (pmin p) (above k m P)).
+          { unfold above. rewrite filter_map_comm. f_equal. apply filter_ext_in. intros q Hq.
+            destruct (coord_pmin_k p q Hp (HP q Hq)) as [_ [H2 H3]].
+            destruct (Qltb m (coord q k)) eqn:E.
+            - apply Qltb_lt in E. apply Qltb_lt. now apply H3.
+            - apply Qltb_false in E. apply Qltb_false. lra. }
+          assert (Hlt : (length (above k m P) < length P)%nat).
+          { destruct (lastmin_in k A ltac:(unfold A; congruence)) as [q [Hq Eq]]. fold m in Eq.
+            destruct Hq as [<-|Hq]; [exfalso; rewrite Eq in Lt; exact (Qlt_irrefl _ Lt)|].
+            unfold above. apply filter_length_lt with q; [exact Hq|]. rewrite <- Eq. apply Qltb_irrefl. }
+          rewrite EA, EM.
+          assert (Hl' : (length (above k m P) <= n)%nat) by lia.
+          rewrite (IH p (above k m P) m Hl' Hp (nnP_filter _ _ HP)).
+          + rewrite (peel_fuel (hv_spec k) k (S n) n m (above k m P)) by lia.
+            rewrite (peel_fuel (hv_spec k) k (S n) n m (map (pmin p) (above k m P))) by (rewrite map_length; lia).
+            reflexivity.
+          + intros q [<-|Hq]; [lra | exact (lb_above k m P q Hq)].
+        - (* p is removed by the cut, and so is every min with p *)
+          assert (EA : above k m A = above k m P).
+          { unfold above, A. simpl. replace (Qltb m (coord p k)) with false by (symmetry; now apply Qltb_false). reflexivity. }
+          assert (EM : above k m (map (pmin p) P) = []).
+          { unfold above. apply filter_none. intros x Hx. apply in_map_iff in Hx. destruct Hx as [q [<- Hq]].
+            apply Qltb_false. destruct (coord_pmin_k p q Hp (HP q Hq)) as [H1 _]. lra. }
+          rewrite EA, EM, peel_nil. assert (coord p k - m == 0) by lra. rewrite H. ring. }
+      rewrite Key. ring.
+  Qed.
+End IE.
+
+(* mu(A u B) = mu(A) + mu(B) - mu(A n B) with B one box: together with hv_spec d [] = 0 this
+   recurrence determines hv_spec (induction on the number of points), and it is exactly the
+   inclusion-exclusion definition of the measure of a union of boxes *)
+Theorem hv_incl_excl : forall d p P, nnpt p -> nnP P ->
+  hv_spec d (p :: P) == hv_spec d P + boxvol d p - hv_spec d (map (pmin p) P).
+Proof.
+  induction d as [|d IH]; intros p P Hp HP.
+  - simpl. destruct P; simpl; ring.
+  - rewrite !hv_S. simpl length. rewrite map_length.
+    rewrite (ie_peel d IH (length P) p P 0 (Nat.le_refl _) Hp HP).
+    + simpl boxvol. ring.
+    + apply nnP_lb0. now apply nnP_cons.
+Qed.
+
+(* ---------- bounds through a reference set ---------- *)
+Lemma ind_make_bounds nobjs st ref c st' : ind_make nobjs st ref = Ok (c, st') ->
+  length (i_min c) = nobjs /\ length (i_max c) = nobjs /\ empty_range nobjs (i_min c) (i_max c) = Ok false.
+Proof.
+  unfold ind_make, normalize. destruct ref as [|r0 rr]; [discriminate|].
+  destruct (mapM (fun i => do c0 <- column (feasible (r0 :: rr)) i; qminl c0) (seq 0 nobjs)) as [mins|] eqn:Emin;
+    cbn [bind]; [|discriminate].
+  destruct (mapM (fun i => do c0 <- column (feasible (r0 :: rr)) i; qmaxl c0) (seq 0 nobjs)) as [maxs|] eqn:Emax;
+    cbn [bind]; [|discriminate].
+  destruct (empty_range nobjs mins maxs) as [e|] eqn:Ee; cbn [bind]; [|discriminate].
+  destruct e; [discriminate|].
+  destruct (write_normalized nobjs mins maxs st (feasible (r0 :: rr))) as [stw|] eqn:Ew; cbn [bind]; [|discriminate].
+  intro H. inversion H; subst. simpl.
+  apply mapM_length in Emin. apply mapM_length in Emax. rewrite seq_length in *. auto.
+Qed.
+
+Theorem hv_exact_refset nobjs dirs ref set c st0 :
+  (2 <= nobjs)%nat -> length dirs = nobjs -> ind_make nobjs [] ref = Ok (c, st0) ->
+  wf_set nobjs (feasible set) ->
+  exists v, hv_indicator repaired nobjs dirs (inr ref) set = Ok v /\
+            v == hv_spec nobjs (spec_points dirs (i_min c) (i_max c) set).
+Proof.
+  intros HD Hd Hm Hw. destruct (ind_make_bounds _ _ _ _ _ Hm) as [A [B C]].
+  destruct (hv_exact nobjs dirs (i_min c) (i_max c) st0 set HD Hd A B C Hw) as [v [st' [R E]]].
+  exists v. split; [|exact E]. unfold hv_indicator. rewrite Hm. cbn [bind fst snd]. rewrite R. reflexivity.
+Qed.
+
+Theorem hv_exact_bounds nobjs dirs mins maxs set :
+  hv_pre nobjs dirs mins maxs -> wf_set nobjs (feasible set) ->
+  exists v, hv_indicator repaired nobjs dirs (inl (mins, maxs)) set = Ok v /\
+            v == hv_spec nobjs (spec_points dirs mins maxs set).
+Proof.
+  intros Hp Hw. destruct (hv_exact' nobjs dirs mins maxs [] set Hp Hw) as [v [st' [R E]]].
+  exists v. split; [|exact E]. unfold hv_indicator. rewrite R. reflexivity.
+Qed.
+
+(* ---------- concrete instances (non-vacuity) and the pre-repair code ---------- *)
+Definition res_is (r : res Q) (q : Q) : bool := match r with Ok v => Qeq_bool v q | Err _ => false end.
+
+Lemma nnpt_forallb p : forallb (fun x => Qle_bool 0 x) p = true -> nnpt p.
+Proof.
+  intros H i. unfold coord. destruct (nth_in_or_default i p 0) as [Hin|Hd].
+  - rewrite forallb_forall in H. apply Qle_bool_iff. now apply H.
+  - rewrite Hd. lra.
+Qed.
+
+Lemma nnP_forallb P : forallb (fun p => forallb (fun x => Qle_bool 0 x) p) P = true -> nnP P.
+Proof. intros H p Hp. apply nnpt_forallb. rewrite forallb_forall in H. now apply H. Qed.
+
+(* three objectives (min, max, min), bounds [0,1]^3; a repeated object (sid 0 twice), a
+   maximised objective beyond the ideal (3/2, clipped), an infeasible member, a member worse
+   than the nadir (3/2 in a minimised objective, dropped), ties in single coordinates *)
+Definition ex_dirs : list bool := [false; true; false].
+Definition ex_set : list isol :=
+  [ISol 0 [1#4; 1#2; 1#4] 0; ISol 1 [1#2; 3#4; 1#8] 0; ISol 0 [1#4; 1#2; 1#4] 0; ISol 2 [1#2; 3#2; 1#4] 0;
+   ISol 3 [0; 1; 0] (1#2); ISol 4 [3#2; 1#2; 1#2] 0; ISol 5 [1#4; 1#4; 1#2] 0].
+Definition ex_pts : list point := spec_points ex_dirs [0;0;0] [1;1;1] ex_set.
+
+Example ex_hv_exact_hypotheses :
+  hv_pre 3 ex_dirs [0;0;0] [1;1;1] /\ wf_set 3 (feasible ex_set) /\
+  res_is (hv_indicator repaired 3 ex_dirs (inl ([0;0;0], [1;1;1])) ex_set) (33 # 64) = true /\
+  hv_spec 3 ex_pts == 33 # 64 /\ length ex_pts = 5%nat.
+Proof.
+  split; [unfold hv_pre; split; [lia|]; split; [reflexivity|]; split; [reflexivity|]; split; [reflexivity|]; vm_compute; reflexivity|]. split.
+  - assert (E : feasible ex_set =
+      [ISol 0 [1#4; 1#2; 1#4] 0; ISol 1 [1#2; 3#4; 1#8] 0; ISol 0 [1#4; 1#2; 1#4] 0; ISol 2 [1#2; 3#2; 1#4] 0;
+       ISol 4 [3#2; 1#2; 1#2] 0; ISol 5 [1#4; 1#4; 1#2] 0]) by (vm_compute; reflexivity).
+    rewrite E. split.
+    + intros s Hs. simpl in Hs. repeat (destruct Hs as [<-|Hs]; [reflexivity|]). contradiction.
+    + intros s s' Hs Hs' Es. simpl in Hs, Hs'.
+      repeat (destruct Hs as [<-|Hs]; [repeat (destruct Hs' as [<-|Hs']; [first [reflexivity | discriminate]|]); contradiction|]).
+      contradiction.
+  - split; [vm_compute; reflexivity|]. split; [vm_compute; reflexivity | vm_compute; reflexivity].
+Qed.
+
+Example ex_spec_theorems_nonvacuous :
+  nnP ex_pts /\
+  (* strict growth when a non-dominated point is added, no change for a dominated one *)
+  hv_spec 3 (firstn 1 ex_pts) < hv_spec 3 (firstn 2 ex_pts) /\
+  hv_spec 3 ([1#2; 1#2; 1#2] :: ex_pts) == hv_spec 3 ex_pts /\
+  hv_spec 3 (rev ex_pts) == hv_spec 3 ex_pts /\
+  hv_spec 3 [[1#2; 1#4; 3#4]] == (1#2) * (1#4) * (3#4).
+Proof.
+  split; [apply nnP_forallb; vm_compute; reflexivity|].
+  repeat split; vm_compute; reflexivity.
+Qed.
+
+(* the code before fixes/9c6b890.diff: a maximised objective better than the ideal is dropped
+   (value 0 instead of 1/2), one worse than the nadir is kept unclipped (NEGATIVE volume) *)
+Example prerepair_direction_differs :
+  res_is (hv_indicator (HvFlags false true) 2 [true; true] (inl ([0;0], [1;1])) [ISol 0 [2; 1#2] 0]) 0 = true /\
+  hv_spec 2 (spec_points [true; true] [0;0] [1;1] [ISol 0 [2; 1#2] 0]) == 1 # 2 /\
+  res_is (hv_indicator repaired 2 [true; true] (inl ([0;0], [1;1])) [ISol 0 [2; 1#2] 0]) (1 # 2) = true /\
+  res_is (hv_indicator (HvFlags false true) 2 [true; true] (inl ([0;0], [1;1]))
+            [ISol 0 [-1#2; 1#2] 0; ISol 1 [1#4; 1#4] 0]) (-1 # 16) = true /\
+  hv_spec 2 (spec_points [true; true] [0;0] [1;1] [ISol 0 [-1#2; 1#2] 0; ISol 1 [1#4; 1#4] 0]) == 1 # 16.
+Proof. repeat split; vm_compute; reflexivity. Qed.
+
+(* the code before fixes/32527cc.diff: the same object listed twice is inverted twice *)
+Example prerepair_repeated_differs :
+  res_is (hv_indicator (HvFlags true false) 2 [false; false] (inl ([0;0], [1;1]))
+            [ISol 0 [1#4; 1#4] 0; ISol 0 [1#4; 1#4] 0]) (1 # 16) = true /\
+  hv_spec 2 (spec_points [false; false] [0;0] [1;1] [ISol 0 [1#4; 1#4] 0; ISol 0 [1#4; 1#4] 0]) == 9 # 16 /\
+  res_is (hv_indicator repaired 2 [false; false] (inl ([0;0], [1;1]))
+            [ISol 0 [1#4; 1#4] 0; ISol 0 [1#4; 1#4] 0]) (9 # 16) = true.
+Proof. repeat split; vm_compute; reflexivity. Qed.
